@@ -249,8 +249,9 @@ class NegativeConditionsRemover(engines.engine.Engine, CompilerMixin):
         new_kind = problem_kind.clone()
         if new_kind.has_negative_conditions():
             new_kind.unset_conditions_kind("NEGATIVE_CONDITIONS")
-            if new_kind.has_equalities():
-                new_kind.set_conditions_kind("DISJUNCTIVE_CONDITIONS")
+            # pushing a negation inwards turns a negated conjunction (or a negated
+            # equality) into a disjunction
+            new_kind.set_conditions_kind("DISJUNCTIVE_CONDITIONS")
         return new_kind
 
     def _compile(
